@@ -526,6 +526,7 @@ fn qos2_heavy(r: &mut Rng) -> Profile {
 fn session_mix(r: &mut Rng) -> Profile {
     let mut p = replay_heavy(r);
     p.name = "session-mix";
+    p.w_disconnect = 5;
     p.sp_w = [3, 4, 4];
     p.bad_connack_pct = 25;
     p.connect_cancel_pct = 15;
